@@ -16,7 +16,10 @@ RULE = ('exhaustive: every request method x argument class x {no port, error pre
         '(state, concrete script, calls). Compared per call: bytes written, reads, err, port, version, caller, port_name always; '
         'return value and nickname for calls that start blocked (for unblocked calls they are C05 observables and are '
         'compared by the C05 check).')
-TRUSTED = ['harness/ebb3_fake.py: fake serial port, script player, stubs for serial.Serial/comports/find_named (module '
+TRUSTED = ['translator/pyio2lean.py (class mode) + lean/Plotink/PyObj.lean: every public method of EBB3/EBBMotionWrap is '
+           'regenerated and run on every history of this module against the real classes (result, escaping exception class, '
+           'bytes written, reads, port, err, version, name, caller, port_name must be identical)',
+           'harness/ebb3_fake.py: fake serial port, script player, stubs for serial.Serial/comports/find_named (module '
            'attributes of plotink.ebb3_serial, only while connect()/find_first() run)',
            'modelled not verified: pyserial (write/readline/close/reset_input_buffer as script outcomes); '
            'packaging.version as release-segment order; str.strip/int()/f-string of ints (differentially tested each run)']
@@ -110,6 +113,7 @@ def _c04_ignore(sc, recs, k, r, outs):
 
 def run(ctx):
     rng = ctx.rng
+    ctx.gen_stream = True        # also run the source-regenerated methods (ebb3gen) on every history: must be identical
     if getattr(ctx, 'replay', None):
         data = json.load(open(ctx.replay))
         items = [v['input'] for v in data.get('violations', [])] + [d['input'] for d in data.get('model_vs_implementation', [])]
